@@ -683,7 +683,7 @@ func e2eCases(g *gen) {
 			g.w.Count("e2e:not-routed")
 			continue
 		}
-		term := emit.App("CStack", sc.term(be), o.term())
+		term := caseTerm(sc, be, o)
 		js := sc.js()
 		js["stream"] = "e2e-gin"
 		js["observed"] = o.js()
